@@ -3378,6 +3378,32 @@ def desugar(trees):
     return n
 
 
+def _fold_strings(e):
+    """e with its string-building sub-expressions over constants
+    ('..{a}..'.format(a='x'), '%s' % 'x', 'a' + 'b', f-strings of
+    constants, ''.join of a literal list) replaced by the string."""
+    from .analysis import const_value
+    from .program import AnalysisError
+
+    class T(ast.NodeTransformer):
+        def generic_visit(self, node):
+            super().generic_visit(node)
+            if isinstance(node, (ast.BinOp, ast.JoinedStr)) or (
+                    isinstance(node, ast.Call) and
+                    isinstance(node.func, ast.Attribute) and
+                    node.func.attr in ('format', 'join') and
+                    isinstance(node.func.value, ast.Constant)):
+                try:
+                    v = const_value(node)
+                except (AnalysisError, TypeError, ValueError, KeyError,
+                        IndexError):
+                    return node
+                if isinstance(v, str):
+                    return ast.copy_location(ast.Constant(value=v), node)
+            return node
+    return T().visit(e)
+
+
 def module_constants(tree, others=()):
     """{name: value} of module-level names bound exactly once (anywhere in
     the module, including `global` rebinding) to a literal: constants,
@@ -3470,6 +3496,7 @@ def module_constants(tree, others=()):
                               if isinstance(v_, (ast.Constant, ast.BinOp,
                                                  ast.JoinedStr))}, {})
                 val = sub.visit(copy.deepcopy(st.value))
+                val = _fold_strings(val)
                 if literal(val):
                     out[st.targets[0].id] = val
                     more = True
